@@ -52,6 +52,21 @@ def do_case(ctx, inp):
                 ctx.fail("evaluate-not-constant", {"id": k, "sigma": sigma})
                 return
             x[k] = int(b.constant)
+        if ctx.rng.random() < 0.12:
+            # the interpretation is an EARLIER RESULT fed back and completed: what evaluate_propositions returned for nothing
+            # (or for part of the assignment) — every sub-proposition still open, as Bounds(0, 1) — updated with the leaf values
+            part = {k: v for k, v in sigma.items() if ctx.rng.random() < 0.3}
+            r0 = copy.deepcopy(o).evaluate_propositions(part)
+            fed = dict(r0); fed.update(sigma)
+            res2 = copy.deepcopy(o).evaluate_propositions(fed)
+            ctx.tags["earlier-result-fed-back-and-completed"] += 1
+            x2 = {k: (None if b.constant is None else int(b.constant)) for k, b in res2.items()}
+            # (a sub-proposition the fed-back result already decides is taken as given and its sub-tree is not reported again)
+            if t["id"] not in x2 or any(x2[k] != x.get(k) for k in x2):
+                bad_ = sorted(k for k in set(x2) | {t["id"]} if x.get(k) != x2.get(k))[:4]
+                ctx.fail("earlier-result-fed-back-evaluates-differently", {"sigma": sigma, "part_evaluated_first": part,
+                         "differs_at": {k: [x.get(k), x2.get(k)] for k in bad_}})
+                return
         truth = x[t["id"]]
         if truth != ref_eval(t, sigma):
             ctx.fail("evaluate-disagrees-with-truth-function", {"sigma": sigma, "evaluate": truth})
